@@ -280,14 +280,37 @@ int parse_repeat(AsmContext *asm_context)
     for (r = address_start; r < address_end; r++)
     {
       uint8_t data = asm_context->memory_read(r);
-      add_bin8(asm_context, data, 0);
+
+      // A copy of data is data (it belongs in the listing's data dump, not
+      // in a disassembly), everything else is copied as code.
+      if (asm_context->read_debug(r) == DL_DATA)
+      {
+        asm_context->memory_write_inc(data, DL_DATA);
+      }
+        else
+      {
+        add_bin8(asm_context, data, IS_OPCODE);
+      }
     }
   }
 
   if (asm_context->list != NULL && asm_context->write_list_file == 1)
   {
-    asm_context->list_output(asm_context, address_end, asm_context->address);
-    fprintf(asm_context->list, "\n");
+    // List the copies of code only, one run of code bytes at a time.
+    uint32_t a = address_end;
+
+    while (a < asm_context->address)
+    {
+      if (asm_context->read_debug(a) == DL_DATA) { a++; continue; }
+
+      uint32_t b = a;
+      while (b < asm_context->address && asm_context->read_debug(b) != DL_DATA) { b++; }
+
+      asm_context->list_output(asm_context, a, b);
+      fprintf(asm_context->list, "\n");
+
+      a = b;
+    }
   }
 
   return 0;
